@@ -6,7 +6,15 @@
      `toI32Bits f b = sat32 (± ⌊m · 2^e⌋)` (`toI32Bits_spec`; `truncMag` is `m * 2^e` for `e ≥ 0`, `m / 2^(-e)` for
      `e < 0`); hence `|x as i32| ≤ |x|` (`toI32Bits_abs_le`), `|x| − |x as i32| < 1` when not saturated
      (`toI32Bits_abs_gt`), the sign agrees or the result is `0` (`toI32Bits_sign`), `±0 ↦ 0`, `NaN ↦ 0`, `±∞` saturates.
-  2. `Float32`: see the second half of the file.
+  2. `Float32`: the unpacked view of a finite pattern is `± magM · 2^magE` (`unpackNat32_fin`, `up32_fin`), `f32::abs` and
+     negation are exact (`up_abs32`, `up_neg32`), `|a| ≤ |b|` in the IEEE order is the comparison of the exact magnitudes
+     (`abs_le_abs32`, through `FMR.ValLE`). **`trunc_coord32`**: for an `f32` `x` within the coordinate limit ±131072
+     (`RtObjects.InCoord`, the parser's test), `z = x as i32` is within ±131072, `s = z as f32` has the pattern
+     `intBits fmt32 z` (exactly the integer), is within the limit, `s as i32 = z` (a stored position is a fixed point of
+     truncation), `|s| ≤ |x| < |z| + 1` in the IEEE order, and `z < 0 → x < 0`, `0 < z → 0 < x`.
+  3. `sub_int_exact_float32`: `(a as f32) − (b as f32) = (a − b) as f32` for integers with `|a|, |b|, |a − b| < 2^23`
+     (`round_int_scaled`: `round` of `n · 2^k` at exponent `−k` drops no bit; `usub_int`).
+  4. `f64`: `inCoord_mag64`, `toI32Bits_coord64`, `trunc_coord64` (slider control points are parsed as `f64`).
 -/
 import RosuModel.Lemmas.FloatCoordLaws
 import RosuModel.Lemmas.FloatExactOps
@@ -602,5 +610,298 @@ example : ¬ InCoord (Float32.ofBits 0x4F32D05E) ∧ (Scalar.toI32 (Float32.ofBi
     (Scalar.ofInt 2147483647 : Float32).toBits = 0x4F000000 := by decide +kernel
 
 end F32
+
+
+/-! ## 3. differences of integer-valued `f32`s are exact (slider control points are stored relative to the head) -/
+
+section IntSub
+open Float.Model Float.Model.UnpackedFloat FMR FMO
+
+/-- **`round` of a scaled integer is exact**: `n · 2^k` at exponent `−k` with `0 < n < 2^(M+1)` rounds to the canonical
+pair of the integer `n` (no bit is dropped). -/
+theorem round_int_scaled (spec : Format) (hE : 2 ≤ spec.exponentBits) (s : Sign) (n k : Nat) (hn : 0 < n)
+    (hlt : n < 2 ^ (spec.mantissaBitsWithoutImplicit + 1)) :
+    round spec s (n * 2 ^ k) (-(k : Int)) = .finite s (n * 2 ^ (spec.mantissaBitsWithoutImplicit - n.log2))
+      ((n.log2 : Int) - spec.mantissaBitsWithoutImplicit) (Nat.mul_pos hn (Nat.pow_pos (by decide))) := by
+  have hlog : n.log2 < spec.mantissaBitsWithoutImplicit + 1 := (Nat.log2_lt (by omega)).mpr hlt
+  have hmin := FM.minExponent_le spec hE
+  have htgt : spec.targetExponent (totalExponent (n * 2 ^ k) (-(k : Int))) = (n.log2 : Int) - spec.mantissaBitsWithoutImplicit := by
+    unfold Format.targetExponent totalExponent Format.mantissaBits
+    rw [FM.log2_mul_pow hn]
+    omega
+  unfold round decreaseExponent
+  simp only [htgt]
+  have hcan : spec.targetExponent (totalExponent (n * 2 ^ (spec.mantissaBitsWithoutImplicit - n.log2))
+      ((n.log2 : Int) - spec.mantissaBitsWithoutImplicit)) = (n.log2 : Int) - spec.mantissaBitsWithoutImplicit := by
+    apply FM.canonical_of_full spec hE
+    · rw [FM.log2_mul_pow hn]; omega
+    · omega
+  by_cases hk : k ≤ spec.mantissaBitsWithoutImplicit - n.log2
+  · apply FM.roundWithAccuracy_exact' (j := 0) (hc := hcan)
+    · rw [Nat.shiftLeft_eq, Nat.pow_zero, Nat.mul_one, Nat.mul_assoc, ← Nat.pow_add]
+      congr 2
+      omega
+    · omega
+  · apply FM.roundWithAccuracy_exact' (j := k - (spec.mantissaBitsWithoutImplicit - n.log2)) (hc := hcan)
+    · rw [Nat.shiftLeft_eq, show (-(k : Int) - ((n.log2 : Int) - spec.mantissaBitsWithoutImplicit)).toNat = 0 by omega,
+        Nat.pow_zero, Nat.mul_one, Nat.mul_assoc, ← Nat.pow_add]
+      congr 2
+      omega
+    · omega
+
+
+theorem usub_fin (spec : Format) (s₁ s₂ : Sign) (m₁ m₂ : Nat) (e₁ e₂ : Int) (h₁ h₂) :
+    UnpackedFloat.sub spec (.finite s₁ m₁ e₁ h₁) (.finite s₂ m₂ e₂ h₂) =
+      normalize spec (s₁.apply ((m₁ * 2 ^ (e₁ - min e₁ e₂).toNat : Nat) : Int) -
+        s₂.apply ((m₂ * 2 ^ (e₂ - min e₁ e₂).toNat : Nat) : Int)) (min e₁ e₂) .positive := by
+  simp only [UnpackedFloat.sub, decreaseExponent, Nat.shiftLeft_eq]
+
+theorem apply_scaled (s : Sign) (A p k : Nat) (hp : p ≤ k) :
+    s.apply ((A * 2 ^ p * 2 ^ (k - p) : Nat) : Int) = s.apply (A : Int) * ((2 ^ k : Nat) : Int) := by
+  rw [Nat.mul_assoc, ← Nat.pow_add, show p + (k - p) = k by omega, Int.natCast_mul]
+  cases s
+  · show -((A : Int) * _) = -(A : Int) * _; rw [Int.neg_mul]
+  · rfl
+
+/-- the sign of a non-zero integer. -/
+def isign (d : Int) : Sign := if d < 0 then .negative else .positive
+
+/-- **the difference of two integer-valued floats is exact** as long as the result has at most `M + 1` bits:
+`(± A·2^p · 2^-p) − (± B·2^q · 2^-q)` is the canonical pair of the integer `d = ±A − ±B ≠ 0`. -/
+theorem usub_int (spec : Format) (hE : 2 ≤ spec.exponentBits) (s₁ s₂ : Sign) (A B p q : Nat) (h₁ h₂) (d : Int)
+    (hd : s₁.apply (A : Int) - s₂.apply (B : Int) = d) (hd0 : d ≠ 0)
+    (hlt : d.natAbs < 2 ^ (spec.mantissaBitsWithoutImplicit + 1)) :
+    UnpackedFloat.sub spec (.finite s₁ (A * 2 ^ p) (-(p : Int)) h₁) (.finite s₂ (B * 2 ^ q) (-(q : Int)) h₂) =
+      .finite (isign d) (d.natAbs * 2 ^ (spec.mantissaBitsWithoutImplicit - d.natAbs.log2))
+        ((d.natAbs.log2 : Int) - spec.mantissaBitsWithoutImplicit)
+        (Nat.mul_pos (by omega) (Nat.pow_pos (by decide))) := by
+  rw [usub_fin]
+  obtain ⟨k, hk, hpk, hqk⟩ : ∃ k : Nat, min (-(p : Int)) (-(q : Int)) = -(k : Int) ∧ p ≤ k ∧ q ≤ k :=
+    ⟨max p q, by omega, by omega, by omega⟩
+  rw [hk, show (-(p : Int) - -(k : Int)).toNat = k - p by omega, show (-(q : Int) - -(k : Int)).toNat = k - q by omega,
+    apply_scaled s₁ A p k hpk, apply_scaled s₂ B q k hqk, ← Int.sub_mul, hd]
+  have hpow : (0 : Int) < ((2 ^ k : Nat) : Int) := Int.natCast_pos.mpr (Nat.pow_pos (by decide))
+  unfold isign
+  by_cases hneg : d < 0
+  · rw [if_pos hneg, normalize_neg _ _ _ _ (Int.mul_neg_of_neg_of_pos hneg hpow)]
+    have : (-(d * ((2 ^ k : Nat) : Int))).toNat = d.natAbs * 2 ^ k := by
+      rw [← Int.neg_mul, show -d = (d.natAbs : Int) by omega, ← Int.natCast_mul, Int.toNat_natCast]
+    rw [this]
+    exact round_int_scaled spec hE .negative d.natAbs k (by omega) hlt
+  · rw [if_neg hneg, normalize_pos _ _ _ _ (Int.mul_pos (by omega) hpow)]
+    have : (d * ((2 ^ k : Nat) : Int)).toNat = d.natAbs * 2 ^ k := by
+      rw [show d = (d.natAbs : Int) by omega, ← Int.natCast_mul, Int.toNat_natCast]
+      simp
+    rw [this]
+    exact round_int_scaled spec hE .positive d.natAbs k (by omega) hlt
+
+
+theorem decompose_intPat32 {n : Nat} (hn : 0 < n) (hlt : n < 2 ^ 24) :
+    decompose fmt32 (FM.intPat32 n) = (n * 2 ^ (23 - n.log2), (n.log2 : Int) - 23) := by
+  obtain ⟨b1, b2, b3⟩ := FM.intM_bounds32 hn hlt
+  obtain ⟨f1, f2, f3, f4⟩ := FM.intPat32_fields hn hlt
+  have e23 : fmt32.p - 1 = 23 := rfl
+  have hd := FCL.decompose_norm fmt32 (FM.intPat32 n)
+  rw [e23, f1, f2, show fmt32.bias = 127 from by decide] at hd
+  rw [hd (by omega), Prod.mk.injEq]
+  constructor <;> omega
+
+/-- **the unpacked `f32` of a non-zero integer** `|z| < 2^23`: sign of `z`, mantissa `|z|·2^(23 − log2 |z|)`,
+exponent `log2 |z| − 23`. -/
+theorem up_ofInt32 (z : Int) (h0 : z ≠ 0) (hz : z.natAbs < 2 ^ 23) :
+    IsFin (Float32.ofInt z).toModel.unpack (isign z) (z.natAbs * 2 ^ (23 - z.natAbs.log2)) ((z.natAbs.log2 : Int) - 23) := by
+  have hn : 0 < z.natAbs := by omega
+  obtain ⟨f1, f2, f3, f4⟩ := FM.intPat32_fields hn (by omega : z.natAbs < 2 ^ 24)
+  have hbits := FM.float32_ofInt_bits z hz
+  have hmag : mag fmt32 (Float32.ofInt z).toBits.toNat = FM.intPat32 z.natAbs := by
+    rw [hbits]; unfold intBits mag
+    rw [FM.roundRat_int_eq32 hn (by omega), sign32]
+    split <;> omega
+  have hsign : FM.signOf ((Float32.ofInt z).toBits.toNat / 2 ^ 31) = isign z := by
+    rw [hbits]; unfold intBits isign FM.signOf
+    rw [FM.roundRat_int_eq32 hn (by omega), sign32]
+    by_cases hneg : z < 0
+    · rw [if_pos hneg, if_pos hneg, if_neg (by omega)]
+    · rw [if_neg hneg, if_neg hneg, if_pos (by omega)]
+  have h := (up32_fin (Float32.ofInt z) (by rw [hmag]; omega) (by rw [hmag, inf32]; exact f4)).1
+  unfold magM magE at h
+  rw [hmag, decompose_intPat32 hn (by omega), hsign] at h
+  exact h
+
+theorem up_ofInt32_zero : (Float32.ofInt 0).toModel.unpack = .zero .positive := by
+  rw [FM.float32_unpack, unpackNat32_zero _ (by decide +kernel)]
+  have : (Float32.ofInt 0).toBits.toNat / 2 ^ 31 = 0 := by decide +kernel
+  rw [this]; rfl
+
+theorem isign_neg {d : Int} (h : d ≠ 0) : isign (-d) = -isign d := by
+  unfold isign
+  by_cases h1 : d < 0
+  · rw [if_neg (by omega), if_pos h1]; rfl
+  · rw [if_pos (by omega), if_neg h1]; rfl
+
+theorem isign_apply (z : Int) : (isign z).apply (z.natAbs : Int) = z := by
+  unfold isign
+  by_cases h1 : z < 0
+  · rw [if_pos h1]; show -(z.natAbs : Int) = z; omega
+  · rw [if_neg h1]; show (z.natAbs : Int) = z; omega
+
+/-- **differences of integers are exact in `f32`**: for integers with `|a|, |b|, |a − b| < 2^23`,
+`(a as f32) − (b as f32) = (a − b) as f32` (no rounding; a zero difference is `+0.0`). -/
+theorem sub_int_exact_float32 (a b : Int) (ha : a.natAbs < 2 ^ 23) (hb : b.natAbs < 2 ^ 23) (hd : (a - b).natAbs < 2 ^ 23) :
+    Float32.ofInt a - Float32.ofInt b = Float32.ofInt (a - b) := by
+  rw [sub_float32, ← FX.pack_unpack_float32 (Float32.ofInt (a - b))]
+  congr 2
+  by_cases ha0 : a = 0
+  · subst ha0
+    rw [up_ofInt32_zero]
+    by_cases hb0 : b = 0
+    · subst hb0; rw [up_ofInt32_zero]; rfl
+    · obtain ⟨hm, e⟩ := up_ofInt32 b hb0 hb
+      obtain ⟨hm', e'⟩ := up_ofInt32 (0 - b) (by omega) hd
+      rw [e, e']
+      show UnpackedFloat.finite (-isign b) _ _ _ = _
+      simp only [Int.zero_sub, isign_neg hb0, Int.natAbs_neg]
+  · obtain ⟨hma, ea⟩ := up_ofInt32 a ha0 ha
+    by_cases hb0 : b = 0
+    · subst hb0
+      rw [up_ofInt32_zero, Int.sub_zero, ea]; rfl
+    · obtain ⟨hmb, eb⟩ := up_ofInt32 b hb0 hb
+      rw [ea, eb]
+      by_cases hd0 : a - b = 0
+      · have hab : a = b := by omega
+        subst hab
+        rw [Int.sub_self, up_ofInt32_zero, usub_fin]
+        simp only [Int.min_self, Int.sub_self, normalize_zero]
+      · obtain ⟨hmd, ed⟩ := up_ofInt32 (a - b) hd0 hd
+        rw [ed]
+        have hla : a.natAbs.log2 ≤ 23 := by
+          have := (Nat.log2_lt (by omega : a.natAbs ≠ 0)).mpr (by omega : a.natAbs < 2 ^ 24); omega
+        have hlb : b.natAbs.log2 ≤ 23 := by
+          have := (Nat.log2_lt (by omega : b.natAbs ≠ 0)).mpr (by omega : b.natAbs < 2 ^ 24); omega
+        have h := usub_int Format.binary32 (by decide) (isign a) (isign b) a.natAbs b.natAbs (23 - a.natAbs.log2)
+          (23 - b.natAbs.log2) hma hmb
+          (a - b) (by rw [isign_apply, isign_apply]) hd0 (by show (a - b).natAbs < 2 ^ 24; omega)
+        have e1 : (-((23 - a.natAbs.log2 : Nat) : Int)) = (a.natAbs.log2 : Int) - 23 := by omega
+        have e2 : (-((23 - b.natAbs.log2 : Nat) : Int)) = (b.natAbs.log2 : Int) - 23 := by omega
+        simp only [e1, e2] at h
+        exact h
+
+/-- closed instances, by the kernel: the extreme slider offsets `131072 − (−131072) = 262144` and `−131072 − 131072`. -/
+example : (Float32.ofInt 131072 - Float32.ofInt (-131072)).toBits = (Float32.ofInt 262144).toBits ∧
+    (Float32.ofInt (-131072) - Float32.ofInt 131072).toBits = (Float32.ofInt (-262144)).toBits ∧
+    (Float32.ofInt 5 - Float32.ofInt 5).toBits = 0 ∧ (Float32.ofInt 262144).toBits = 0x48800000 := by decide +kernel
+
+end IntSub
+
+/-! ## 4. the `f64` side: slider control points are parsed as `f64` within ±131072, then `as i32 as f32` -/
+
+section F64
+open Float.Model Float.Model.UnpackedFloat FMR FMO RtObjects
+
+/-- a non-NaN binary64 pattern whose value is neither above `131072` nor below `-131072` has magnitude `≤ 0x4100000000000000`. -/
+theorem key_unpackNat_bound64 (n : Nat) (hnan : (FM.unpackNat 52 11 n).isNaN = false)
+    (h1 : ¬ KLt (1, -35, 2 ^ 52) (key (FM.unpackNat 52 11 n)))
+    (h2 : ¬ KLt (key (FM.unpackNat 52 11 n)) (-1, 35, -(2 ^ 52))) : n % 2 ^ 63 ≤ 0x4100000000000000 := by
+  unfold FM.unpackNat at *
+  by_cases he : n / 2 ^ 52 % 2 ^ 11 = 2 ^ 11 - 1
+  · rw [if_pos he] at hnan h1 h2
+    by_cases hf : n % 2 ^ 52 = 0
+    · rw [if_pos hf] at h1 h2
+      by_cases ht : n / 2 ^ (52 + 11) = 0
+      · simp [FM.signOf, ht, key, KLt] at h1
+      · simp [FM.signOf, ht, key, KLt] at h2
+    · rw [if_neg hf] at hnan; cases hnan
+  · rw [if_neg he] at h1 h2
+    by_cases h0 : n / 2 ^ 52 % 2 ^ 11 = 0
+    · omega
+    · rw [if_neg h0] at h1 h2
+      by_cases ht : n / 2 ^ (52 + 11) = 0
+      · simp [FM.signOf, ht, key, KLt] at h1
+        omega
+      · simp [FM.signOf, ht, key, KLt] at h2
+        omega
+
+/-- an `f64` within the coordinate limit has a magnitude pattern at most that of `131072.0`. -/
+theorem inCoord_mag64 (a : Float) (h : InCoord a) : a.toBits.toNat % 2 ^ 63 ≤ 0x4100000000000000 := by
+  obtain ⟨h1, h2, h3⟩ := h
+  have hu : IeeeOrd.up a = FM.unpackNat 52 11 a.toBits.toNat := FM.float_unpack a
+  have hn : (FM.unpackNat 52 11 a.toBits.toNat).isNaN = false := by rw [← hu, ← IeeeOrd.isNaN_eq]; exact h3
+  have nc : Scalar.isNaN (Scalar.ofInt maxCoordinate : Float) = false := by decide +kernel
+  have nnc : Scalar.isNaN (-(Scalar.ofInt maxCoordinate : Float)) = false := by decide +kernel
+  refine key_unpackNat_bound64 _ hn ?_ ?_
+  · rcases (lt_false_iff _ _).mp h2 with h | h | h
+    · rw [nc] at h; cases h
+    · rw [h3] at h; cases h
+    · rw [FCO.key_coord64, hu] at h; exact h
+  · rcases (lt_false_iff _ _).mp h1 with h | h | h
+    · rw [h3] at h; cases h
+    · rw [nnc] at h; cases h
+    · rw [FCO.key_neg_coord64, hu] at h; exact h
+
+theorem div_pow_le64 {m k : Nat} (hm : m < 2 ^ 53) (hk : 36 ≤ k) : m / 2 ^ k < 2 ^ 17 := by
+  apply Nat.div_lt_of_lt_mul
+  calc m < 2 ^ 53 := hm
+    _ = 2 ^ 36 * 2 ^ 17 := by decide
+    _ ≤ 2 ^ k * 2 ^ 17 := Nat.mul_le_mul_right _ (Nat.pow_le_pow_right (by decide) hk)
+
+theorem sign64 : fmt64.signBit = 2 ^ 63 := by decide
+theorem inf64 : fmt64.infBits = 0x7FF0000000000000 := by decide
+
+theorem decompose64 (r : Nat) : decompose fmt64 r =
+    (if r / 2 ^ 52 = 0 then (r % 2 ^ 52, -1074) else (r % 2 ^ 52 + 2 ^ 52, ((r / 2 ^ 52 : Nat) : Int) - 1023 - 52)) := by
+  unfold decompose
+  rfl
+
+/-- `x as i32` of an `f64` within the coordinate limit is within ±131072. -/
+theorem toI32Bits_coord64 (n : Nat) (h : n % 2 ^ 63 ≤ 0x4100000000000000) :
+    -131072 ≤ toI32Bits fmt64 n ∧ toI32Bits fmt64 n ≤ 131072 := by
+  have hfin : mag fmt64 n < fmt64.infBits := by unfold mag; rw [sign64, inf64]; omega
+  have hle : truncMag (magM fmt64 n) (magE fmt64 n) ≤ 2 ^ 17 := by
+    unfold magM magE mag truncMag
+    rw [sign64, decompose64]
+    by_cases hE : n % 2 ^ 63 / 2 ^ 52 = 0
+    · rw [if_pos hE]
+      simp only [show ¬ ((0 : Int) ≤ -1074) by decide, if_false]
+      exact Nat.le_of_lt (div_pow_le64 (by omega) (by decide))
+    · rw [if_neg hE]
+      generalize hE' : n % 2 ^ 63 / 2 ^ 52 = E at *
+      generalize hF' : n % 2 ^ 63 % 2 ^ 52 = Fr at *
+      have hEle : E ≤ 1040 := by omega
+      have hFr : Fr < 2 ^ 52 := by omega
+      have h1040 : E = 1040 → Fr = 0 := by omega
+      simp only [show ¬ ((0 : Int) ≤ ((E : Nat) : Int) - 1023 - 52) by omega, if_false]
+      rw [show (-(((E : Nat) : Int) - 1023 - 52)).toNat = 1075 - E by omega]
+      by_cases h4 : E = 1040
+      · rw [h4, h1040 h4]; decide
+      · exact Nat.le_of_lt (div_pow_le64 (by omega) (by omega))
+  have hsp := toI32Bits_trunc fmt64 (by decide) n hfin (by omega)
+  have hab := truncInt_natAbs fmt64 n
+  rw [hsp]
+  omega
+
+/-- `x as i32 as f32` of an `f64` coordinate: an integer within ±131072, stored exactly, a fixed point of truncation. -/
+theorem trunc_coord64 (x : Float) (h : InCoord x) :
+    -131072 ≤ (Scalar.toI32 x : Int) ∧ (Scalar.toI32 x : Int) ≤ 131072 ∧
+    (Scalar.ofInt (Scalar.toI32 x) : Float32).toBits.toNat = intBits fmt32 (Scalar.toI32 x) ∧
+    InCoord (Scalar.ofInt (Scalar.toI32 x) : Float32) ∧
+    Scalar.toI32 (Scalar.ofInt (Scalar.toI32 x) : Float32) = Scalar.toI32 x := by
+  obtain ⟨z1, z2⟩ := toI32Bits_coord64 x.toBits.toNat (inCoord_mag64 x h)
+  have hzdef : (Scalar.toI32 x : Int) = toI32Bits fmt64 x.toBits.toNat := rfl
+  rw [← hzdef] at z1 z2
+  generalize (Scalar.toI32 x : Int) = z at *
+  have hbits : (Float32.ofInt z).toBits.toNat = intBits fmt32 z := FM.float32_ofInt_bits z (by omega)
+  refine ⟨z1, z2, hbits, ?_, ?_⟩
+  · show InCoord (Float32.ofInt z)
+    exact inCoord_of_mag32 _ (by rw [hbits]; exact intBits_mag32 z (by omega))
+  · show toI32Bits fmt32 (Float32.ofInt z).toBits.toNat = z
+    rw [hbits]
+    exact FCO.toI32Bits_intBits fmt32 (by decide) (by decide) (by decide) z (by show z.natAbs < 2 ^ 24; omega) (by omega)
+
+/-- non-vacuity: `-2.75f64`, `131072.0`, `-131071.999…` are within the limit; they truncate to `-2`, `131072`, `-131071`. -/
+example : InCoord (Float.ofBits 0xC006000000000000) ∧ InCoord (131072 : Float) ∧ InCoord (Float.ofBits 0xC0FFFFFFFFFFFFFF) ∧
+    (Scalar.toI32 (Float.ofBits 0xC006000000000000) : Int) = -2 ∧ (Scalar.toI32 (131072 : Float) : Int) = 131072 ∧
+    (Scalar.toI32 (Float.ofBits 0xC0FFFFFFFFFFFFFF) : Int) = -131071 := by decide +kernel
+
+end F64
 
 end Rosu.FTR
